@@ -335,5 +335,16 @@ if __name__ == '__main__':
         cmd_survive(int(sys.argv[2]) if len(sys.argv) > 2 else 200, int(sys.argv[3]) if len(sys.argv) > 3 else 0)
     elif cmd == 'check':
         cmd_check(int(sys.argv[2]) if len(sys.argv) > 2 else 10)
+    elif cmd == 'one':
+        # tools/automutate.py one <id> <check>...   (re-run named checks on one mutant; result printed, state untouched)
+        allm = {m['id']: m for m in json.load(open(os.path.join(OUT, 'mutants.json')))}
+        m = allm[int(sys.argv[2])]
+        print(m['file'], m['line'], m['func'], m['op'], repr(m['old']), '->', repr(m['new']))
+        print(run_checks(m, sys.argv[3:]))
+    elif cmd == 'note':
+        # tools/automutate.py note <id> <text>   (manual classification of a survivor that no check catches)
+        st = load_state()
+        st[sys.argv[2]]['note'] = ' '.join(sys.argv[3:])
+        save_state(st)
     else:
         cmd_report()
